@@ -2,6 +2,7 @@
 //! op lines for the Lean model driver and the implementation's canonical answers, and
 //! evaluates each property directly on the implementation (failing-input search).
 mod c07;
+mod c09;
 mod c10;
 mod c14;
 mod enc;
@@ -51,6 +52,7 @@ fn main() {
     // the real code logs through `tracing`; keep stdout/stderr quiet
     match prop.as_str() {
         "C07" => c07::run(&a),
+        "C09" => c09::run(&a),
         "C10" => c10::run(&a),
         "C14" => c14::run(&a),
         _ => {
